@@ -145,6 +145,16 @@ def cases(ctx, budget):
             subj = "".join(rng.choice(chars) for _ in range(rng.randint(1, 3)))
         yield mk(rng.random() < 0.5, subj, pat, "class-stress")
         yield Case({"pattern": pat}, [15] + wire.enc_str(pat), wire.enc_str(map_re(pat)), None, None, True, "map_re")
+    # escape stress: an escaped backslash directly before '.', a class or a bracket (what follows "\\\\" is NOT escaped), subjects with line breaks
+    ATOMS = [("\\\\", ["\\"]), ("\\\\", ["\\"]), (".", ["\r", "\n", "x", "\\"]), ("[.x]", [".", "x", "\r"]), ("[^a]", ["\n", "b", "a", "\r"]), ("x", ["x"]), ("\\.", [".", "x", "\r"]),
+             ("a", ["a"]), ("[x\\\\]", ["x", "\\"]), ("\\[", ["["]), ("\\]", ["]"])]
+    for _ in range((600 if ctx.quick else 20000) * budget):
+        chosen = [rng.choice(ATOMS) for _k in range(rng.randint(1, 4))]
+        pat = "".join(a for a, _ in chosen)
+        subj = "".join(rng.choice(cs) for _, cs in chosen)          # a subject shaped like the pattern, line breaks where a '.' or a class stands
+        if rng.random() < 0.2: subj = "".join(rng.choice(["\\", "\n", "\r", ".", "x", "a", "["]) for _k in range(rng.randint(1, 4)))
+        yield mk(rng.random() < 0.5, subj, pat, "escape-stress")
+        yield Case({"pattern": pat}, [15] + wire.enc_str(pat), wire.enc_str(map_re(pat)), None, None, True, "map_re")
     # histories on one function object: a valid pattern that matches, then an invalid / non-string pattern twice, then another subject
     for _ in range((300 if ctx.quick else 10000) * budget):
         p = regexp(rng, 2)
